@@ -264,6 +264,8 @@ class Tr:
         c = self.truthy(n.test)
         a, ka = self.expr(n.body)
         b, kb = self.expr(n.orelse)
+        if ka == kb and isinstance(ka, tuple) and ka[0] == 'L':
+            return ('(if %s then %s else %s)' % (c, a, b), ka)
         k = self.join(ka, kb) if (ka, kb) != ('B', 'B') else 'B'
         if k == 'B':
             return ('(if %s then %s else %s)' % (c, a, b), 'B')
@@ -308,7 +310,12 @@ class Tr:
             if k == 'I':
                 return (t, 'I')
             return ('(ntrunc %s)' % self.toR(t, k), 'I')
+        if fn == 'float' and len(n.args) == 1:
+            t, k = self.expr(n.args[0])
+            return (self.toR(t, k), 'R')
         args = [self.expr(a) for a in n.args]
+        if fn == 'np.full' and len(args) == 2 and args[0][1] == 'I':
+            return ('(repeat %s (Z.to_nat %s))' % (self.toR(*args[1]), args[0][0]), ('L', 'R'))
         if fn == 'np.array' and len(args) == 1 and args[0][1] == ('L', 'R'):
             return args[0]
         if fn == 'np.arange' and len(args) == 3:
